@@ -242,13 +242,20 @@ def generate_measure(cases: list, edges: str = 'set') -> dict:
     from .langgen import lang_payload, inst_payload
     from .genrun import impl_generate, model_nodes_canon
     st = {'cases': 0, 'impl_ne_hand': 0, 'gen_follows_impl': 0, 'gen_ne_impl': 0, 'impl_crash': 0, 'skipped_large': 0, 'examples': []}
-    hand = run_driver([{'op': 'gen', 'case': i, 'lang': lang_payload(s), 'inst': inst_payload(m)} for i, (s, m, _, _) in enumerate(cases)])
-    ims = []
-    for s, m, cs, mp in cases:
+    ims, names0 = [], {}
+    for i, (s, m, cs, mp) in enumerate(cases):
+        # the names the objects are constructed with (`None`, duplicates): the (mutated) model chooses the final names, which
+        # `impl_generate` writes back into `m`; the hand model is asked about the final names, the generated `add_asset` renames itself
+        if any(a['name'] is None for a in m['assets']) or len({a['name'] for a in m['assets']}) < len(m['assets']):
+            names0[i] = [a['name'] for a in m['assets']]
         try: ims.append(impl_generate(s, m, churn=None if cs is None else random.Random(cs), member_p=mp))
         except BaseException as e: ims.append({'crash': type(e).__name__})
+        for a in m['assets']:
+            if a['name'] is None: a['name'] = f"{a['type']}:{a['id']}"
+    hand = run_driver([{'op': 'gen', 'case': i, 'lang': lang_payload(s), 'inst': inst_payload(m)} for i, (s, m, _, _) in enumerate(cases)])
     todo = [i for i, im in enumerate(ims) if 'crash' not in im and ('error' in im or len(im['edges']) <= MAX_EDGES)]
-    gen = dict(zip(todo, run_driver([generate_payload(i, lang_payload(cases[i][0]), inst_payload(cases[i][1])) for i in todo])))
+    gen = dict(zip(todo, run_driver([generate_payload(i, lang_payload(cases[i][0]), inst_payload(cases[i][1]),
+                                                      **({'names0': names0[i]} if i in names0 else {})) for i in todo])))
     for i, (s, m, cs, mp) in enumerate(cases):
         st['cases'] += 1
         im = ims[i]
